@@ -158,8 +158,39 @@ EvalStrBranch(p, a, b) ==
 \* "bigconst":  if a > K1 { return b + K2 }; return b + SMALL      (literals outside the small range)
 EvalBigConst(p, a, b) == IF a > p.k1 THEN Val(b + p.k2) ELSE Val(b + p.small)
 
+\* "sharedcmp":  c := a CMP R; x := 0; if c { x = T } else { x = E }; return x + b2i(c)
+\* The comparison result has a SECOND use.  For this template `flip` is the INVALID refactoring
+\* ("badflip"): the test negated and the branches exchanged, but the second use left alone.
+SExprs == {"a+b", "a-b", "b", "7"}
+EvalSharedCmp(p, a, b) ==
+  LET r == IF p.rhs = "b" THEN b ELSE 3
+      c == Cmp(IF p.pres.flip THEN Negate(p.cmp) ELSE p.cmp, a, r)
+      first == IF p.pres.flip THEN p.elseE ELSE p.thenE
+      second == IF p.pres.flip THEN p.thenE ELSE p.elseE
+      x == IF c THEN EvalE(first, a, b, p.pres) ELSE EvalE(second, a, b, p.pres)
+  IN IF ~x.ok THEN Panic ELSE Val(x.v + (IF c THEN 1 ELSE 0))
+
+\* "fltbranch":  x := float64(a) / float64(b); if x CMP 1 { return T } else { return E }
+\* IEEE: 0/0 = NaN (every ordered comparison and == false, != true), n/0 = +-Inf.
+\* `flip` is again the INVALID refactoring here: with NaN, !(x >= 1) is not (x < 1).
+CmpF(op, a, b) ==
+  IF a = 0 /\ b = 0 THEN op = "!="
+  ELSE LET num == IF b < 0 THEN -a ELSE a
+           den == IF b < 0 THEN -b ELSE b
+       IN IF den = 0 THEN Cmp(op, IF num > 0 THEN 2 ELSE 0, 1) ELSE Cmp(op, num, den)
+EvalFltBranch(p, a, b) ==
+  LET c == CmpF(IF p.pres.flip THEN Negate(p.cmp) ELSE p.cmp, a, b)
+      first == IF p.pres.flip THEN p.elseE ELSE p.thenE
+      second == IF p.pres.flip THEN p.thenE ELSE p.elseE
+  IN IF c THEN EvalE(first, a, b, p.pres) ELSE EvalE(second, a, b, p.pres)
+
+\* "extract":  x, y := dm(a, b)   (dm returns a+b, a-b);  return SEL*2 + SMALL   (a multi-value call: which result is used)
+EvalExtract(p, a, b) == Val((IF p.sel = "x" THEN a + b ELSE a - b) * 2 + p.small)
+
 Eval(p, a, b) ==
-  CASE p.tpl = "branch" -> EvalBranch(p, a, b) [] p.tpl = "loop" -> EvalLoop(p, a, b)
+  CASE p.tpl = "branch" -> EvalBranch(p, a, b)
+    [] p.tpl = "sharedcmp" -> EvalSharedCmp(p, a, b) [] p.tpl = "fltbranch" -> EvalFltBranch(p, a, b)
+    [] p.tpl = "extract" -> EvalExtract(p, a, b) [] p.tpl = "loop" -> EvalLoop(p, a, b)
     [] p.tpl = "bigconst" -> EvalBigConst(p, a, b)
     [] p.tpl = "loopbranch" -> EvalLoopBranch(p, a, b) [] p.tpl = "rangebranch" -> EvalRangeBranch(p, a, b) [] p.tpl = "strbranch" -> EvalStrBranch(p, a, b)
     [] p.tpl = "nested" -> EvalNested(p, a, b) [] p.tpl = "straight" -> EvalStraight(p, a, b)
@@ -185,15 +216,20 @@ RangeBranch == [tpl : {"rangebranch"}, cmp : Cmps, rhs : {"b", "k"}, thenOp : {"
 StrBranch == [tpl : {"strbranch"}, cmp : Cmps, lit : {2, 3}, elseE : {"b", "7"}, pres : {Plain}]
 BigConst == [tpl : {"bigconst"}, k1 : {1000, 2000}, k2 : {100000, 50000}, small : {3, 5}, pres : {Plain}]
 
+SharedCmp == [tpl : {"sharedcmp"}, cmp : Cmps, rhs : {"b", "k"}, thenE : SExprs, elseE : SExprs, pres : {Plain}]
+FltBranch == [tpl : {"fltbranch"}, cmp : Cmps, thenE : SExprs, elseE : SExprs, pres : {Plain}]
+Extract == [tpl : {"extract"}, sel : {"x", "y"}, small : {3, 5}, pres : {Plain}]
+
 Holes(p) == DOMAIN p \ {"tpl", "pres"}
 \* the values a hole may take (for one-hole edits)
 Alt(p, h) ==
   CASE h \in {"cmp"} -> IF p.tpl = "loop" THEN {"<", "<="} ELSE Cmps
     [] h \in {"lhs", "bound", "outer"} -> {"a", "b"}
-    [] h = "rhs" -> IF p.tpl \in {"loopbranch", "rangebranch"} THEN {"b", "k"} ELSE {"a", "b", "k"}
+    [] h = "rhs" -> IF p.tpl \in {"loopbranch", "rangebranch", "sharedcmp"} THEN {"b", "k"} ELSE {"a", "b", "k"}
+    [] h = "sel" -> {"x", "y"}
     [] h \in {"thenOp", "elseOp"} -> {"+", "-"}
     [] h = "lit" -> {2, 3}
-    [] h \in {"thenE", "elseE"} -> IF p.tpl = "strbranch" THEN {"b", "7"} ELSE Exprs
+    [] h \in {"thenE", "elseE"} -> IF p.tpl = "strbranch" THEN {"b", "7"} ELSE IF p.tpl \in {"sharedcmp", "fltbranch"} THEN SExprs ELSE Exprs
     [] h = "k1" -> {1000, 2000} [] h = "k2" -> {100000, 50000} [] h = "small" -> {3, 5}
     [] h = "start" -> {0, 1} [] h = "step" -> {1, 2} [] h = "d" -> {1, 2} [] h = "c0" -> {0, 1}
     [] h = "acc" -> {"+", "*", "-"}
